@@ -614,6 +614,20 @@ def purgeCuts (cs : List Cut) (name : Bytes) (qclass : UInt16) : List Cut :=
   let cands := cutSuffixes (canonicalName name)
   cs.filter fun c => !(cands.contains c.name && c.qclass == qclass)
 
+/-- `Store.RecordFailure` → `FailureCache.RecordQuestion` for a live cache: the state is
+filed under the hash of (canonical name, type, class, CD, normalised audience); an
+active state of the same key is kept, anything else under that hash is replaced. -/
+def recordFailure (H : Bytes → UInt64) (s : AFStore) (id : Nat) (name : Bytes) (qtype qclass : UInt16) (cd : Bool)
+    (scope : Scope) : AFStore :=
+  let n := canonicalName name
+  let sc := normalizeKeyScope scope
+  match loadQuestion H s.get n qtype qclass cd sc with
+  | some _ => s
+  | none =>
+    let h := failureQuestionHash H n qtype qclass cd sc
+    (h, { id := id, kind := FKind.question, name := n, qtype := qtype, qclass := qclass, cd := cd,
+          scope := sc, active := true }) :: s.filter (·.1 != h)
+
 /-- `FailureCache.ResetZone`. -/
 def resetZone (H : Bytes → UInt64) (s : AFStore) (zone : Bytes) (qclass : UInt16) : AFStore :=
   match loadZone H s.get zone qclass with
@@ -646,6 +660,19 @@ def buildPolicy (f4 f6 m4 m6 : Nat) : Policy :=
   let f6' := if f6 = 0 then 56 else f6
   { forwardV4 := f4', forwardV6 := f6',
     minScopeV4 := if m4 = 0 then f4' else m4, minScopeV6 := if m6 = 0 then f6' else m6 }
+
+/-- the transport's peer address as the handlers see it after `Is4In6 → Unmap`: an
+IPv4-mapped IPv6 address counts as the IPv4 address it carries. -/
+def unmapPeer (peer : Prefix) : Prefix :=
+  if peer.v6 && peer.addr.take 12 == [0, 0, 0, 0, 0, 0, 0, 0, 0, 0, 0xFF, 0xFF] then
+    { v6 := false, bits := 32, addr := peer.addr.drop 12 }
+  else peer
+
+/-- `Policy.Allows` (on the unmapped peer): an empty `client_networks` list admits
+everyone, otherwise the peer must lie in one of the prefixes (same family). -/
+def policyAllows (nets : List Prefix) (peer : Prefix) : Bool :=
+  let p := unmapPeer peer
+  nets.isEmpty || nets.any fun n => n.v6 == p.v6 && maskBytes n.bits p.addr == maskBytes n.bits n.addr
 
 /-- `Policy.Clamp` (edns) followed by `Cache.requestScope`: the client's source
 prefix as forwarded upstream and as the cache probes with it. -/
